@@ -96,11 +96,13 @@ let is_prefix p s = String.length s >= String.length p && String.sub s 0 (String
 let judge _name ins outs =
   if List.mem "BADCASE" outs then VDisagree "harness-rejected-the-script" else
   let tb = { dec = Hashtbl.create 16; cmp = Hashtbl.create 16 } in
-  let sops = ref [] and sspecs = ref [] and cur = ref 0 in
+  let sops = ref [] and sspecs = ref [] and cur = ref 0 and has_c = ref true and has_s = ref true in
   List.iter (fun t ->
       if t = "" then () else
       match t.[0] with
       | '@' -> cur := int_of_string (tail_from t 1)
+      | 'f' when String.length t >= 2 && t.[1] = '=' ->
+          has_c := String.contains t 'C'; has_s := String.contains t 'S'
       | 'H' -> sops := (!cur, parse_header_tok t) :: !sops
       | 'D' -> sops := (!cur, parse_data_tok t) :: !sops
       | 'W' ->
@@ -110,6 +112,7 @@ let judge _name ins outs =
       | 'T' -> add_table tb ~from_sink:false t
       | _ -> ()) ins;
   let sops = List.rev !sops and sspecs = List.rev !sspecs in
+  let has_c = !has_c and has_s = !has_s in
   let (groups, extra) = split_out outs in
   List.iter (fun t -> if String.length t > 0 && t.[0] = 't' then add_table tb ~from_sink:true t) extra;
   if List.mem "BADTABLE" extra then VDisagree "harness-decomp-table-wrong" else
@@ -132,7 +135,7 @@ let judge _name ins outs =
       | OpData _ :: r -> go true r in
     go false ops in
   let hdr_ops = List.filter (function OpHeader (_, _, false) -> true | _ -> false) ops in
-  let after_headers = pair_after decomp comp repaired pair0 hdr_ops in
+  let after_headers = pair_after decomp comp repaired (pair_cfg has_c has_s) hdr_ops in
   let header_error = List.mem "e:enc" all_ev in
   let oracle_dir (d : dir) : (string * string) option =
     let dc = char_of_dir d in
@@ -152,14 +155,22 @@ let judge _name ins outs =
           else None) all_ev in
       let datas = List.filter_map (fun t ->
           if is_prefix sd t then Some (chars_of_hex (tail_from t 5), t.[3] = '1') else None) all_ev in
+      if not (has_proc d p) then begin
+        (* the factory gave this direction no processor: its frames must reach the sink untouched
+           (theorem C11_no_processor_untouched), gRPC or not *)
+        if List.exists (fun t -> is_prefix (Printf.sprintf "s%ch" dc) t && not (is_prefix "ok" (tail_from t 5))) all_ev
+        then Some ("headers_changed", "a forwarded HEADERS differs from the one received")
+        else if not (untouched_ok frames calls datas) then
+          Some ("no_processor_untouched", Printf.sprintf "dir=%c has no processor but %s" dc
+                  (if calls <> [] then "messages were shown to a processor" else "its DATA did not reach the sink unchanged"))
+        else (nontrivial := true; None)
+      end else
       if List.exists (fun t -> (is_prefix (Printf.sprintf "p%ch" dc) t || is_prefix (Printf.sprintf "s%ch" dc) t)
                                && not (is_prefix "ok" (tail_from t 5))) all_ev
       then Some ("headers_changed", "a forwarded HEADERS differs from the one received") else
       (* which streams are gRPC is pinned here independently of the model's regenerated
          constants: some HEADERS carried content-type exactly application/grpc *)
-      let spec_grpc = List.exists (function
-          | OpHeader (_, hs, false) -> std_is_grpc hs     (* extracted; = is_grpc by theorem C11_detection_is_exact_content_type *)
-          | _ -> false) ops in
+      let spec_grpc = std_stream_is_grpc has_c has_s ops in   (* extracted; theorem C11_detection_step *)
       if spec_grpc <> enabled p then
         Some ("grpc_detection", Printf.sprintf "stream is %sgRPC by its content-type but the adapter treats it as %sgRPC"
                 (if spec_grpc then "" else "not ") (if enabled p then "" else "non-"))
@@ -175,10 +186,15 @@ let judge _name ins outs =
         let e = get_enc d p in
         (* the codec the gRPC spec prescribes for the grpc-encoding value this direction
            announced, read here independently of the model's (regenerated) table *)
+        (* grpc-encoding values count from the HEADERS that makes the stream gRPC on (an adapter
+           never looks at the fields of a stream it does not yet treat as gRPC) *)
         let announced_v =
-          List.fold_left (fun acc o -> match o with
-              | OpHeader (d', hs, false) when d' = d -> announced acc hs    (* extracted *)
-              | _ -> acc) None ops in
+          let (_, acc) = List.fold_left (fun (en, acc) o -> match o with
+              | OpHeader (d', hs, false) ->
+                  let en = en || (has_proc d' p && std_is_grpc hs) in
+                  (en, if d' = d && en then announced acc hs else acc)     (* extracted *)
+              | _ -> (en, acc)) (false, None) ops in
+          acc in
         let spec_enc = match announced_v with
           | None -> Some Identity
           | Some v -> std_enc_of_name v in                                (* extracted *)
@@ -231,7 +247,7 @@ let judge _name ins outs =
   | None ->
     (* ---------- correspondence: model vs implementation, op by op, all streams ---------- *)
     let render v =
-      match run_session decomp comp v sess0 (List.map (fun (k, o) -> (nat_of_int k, o)) sops) with
+      match run_session decomp comp v (sess_cfg has_c has_s) (List.map (fun (k, o) -> (nat_of_int k, o)) sops) with
       | None -> None
       | Some outs -> Some (List.map (fun (k, g) -> (int_of_nat k, List.map tok_of_oev g)) outs) in
     (match render repaired with
